@@ -29,9 +29,9 @@ CHECKS = {
    note="Trusted: as C17. The toy instantiation goes through an overlay-only export shim in the internal btccurve package (not part of /repo).",
    tech="explicit TLA+ spec + TLC toy model + complete (k,d) tables replayed through the real Shift code + certificate-checked real-size traces"),
  "C13": dict(cat="model_checking", ref="DESIGN.md section 5 C13",
-   text="TLA+ module PowMine models Mine of both PoW versions with one action per stretch of code between two hook points (main, watcher, NW workers, environment cancelling at any instant). TLC checks safety for NW<=3 (thorough 4) in modes always/never/either (a finder's send never blocks, nonce only if found, ErrCancelled only if cancelled, all workers joined at return, no stuck state) and liveness under weak fairness (cancelled ~> returned, found ~> returned, returned ~> no goroutine left); an undersized channel is shown to violate the model (vacuity control). TLC simulation behaviours are replayed as schedules on the real Mine through blocking hooks (build tag verif), free-running executions with 1..64 workers and cancellation before / during / at a find are recorded, and every execution is validated against PowMine by TLC, which infers the interleaving (one action of look-ahead per process) and checks the returned value, the goroutine count and the score of the returned nonce. Two concurrent Mine calls on one Worker (one cancelled) are checked at the outcome level. The free-running binary runs under the race detector.",
+   text="TLA+ module PowMine models Mine of both PoW versions with one action per stretch of code between two hook points (main, watcher, NW workers, environment cancelling at any instant). TLC checks safety for NW<=3 (thorough 4) in modes always/never/either (a finder's send never blocks, nonce only if found, ErrCancelled only if cancelled, all workers joined at return, no stuck state) and liveness under weak fairness (cancelled ~> returned, found ~> returned, returned ~> no goroutine left); an undersized channel is shown to violate the model (vacuity control). TLC simulation behaviours are replayed as schedules on the real Mine through blocking hooks (build tag verif), free-running executions with 1..64 workers and cancellation before / during / at a find are recorded, and every execution is validated against PowMine by TLC, which infers the interleaving (one action of look-ahead per process) and checks the returned value, the goroutine count and the score of the returned nonce. An inductive invariant of PowMine (module PowMineInd) is discharged by Apalache per worker count. Module PowMineMulti puts several calls in flight: calls that share nothing keep every per-call clause, a stop flag shared between calls or a blocking process-wide semaphore violate them (controls); accordingly two concurrent Mine calls on one Worker, and calls on separate Workers with together more workers than processors (one cancelled, or one finding, while the other goes on), are checked at the outcome level. New(), New(0), New(-1) and other configured digest functions between calls are part of the recorded configurations. The repository's own tests of Mine are run with recording hooks and their executions validated by the same trace specification (the tests' own cancellation is an unlogged step placed by TLC). The free-running binary runs under the race detector.",
    note="Trusted: TLC/SANY/CommunityModules, Go toolchain and race detector (dynamic), sequentially consistent atomics and channel semantics as modelled, mutex-ordered hook events. The model is bounded (NW<=4); real executions are sampled schedules. A hang is observed positively (Mine not returned 10 s after it must) and confirmed by re-running.",
-   tech="explicit TLA+ spec + TLC safety/liveness model checking + TLC behaviours replayed as schedules through gate hooks + trace validation with inferred interleavings + race detector"),
+   tech="explicit TLA+ spec + TLC safety/liveness model checking (+ Apalache inductive invariant, multi-call model with flawed variants as controls) + TLC behaviours replayed as schedules through gate hooks + trace validation with inferred interleavings (driver runs and the repository's own tests) + race detector"),
  "C11": dict(cat="model_checking", ref="DESIGN.md section 5 C11",
    text="TLA+ module Pow: PowHash = Curl-P-81(b1t6(digest) ++ b1t6(nonce)) evaluated by TLC itself, Score = 3^z/len compared exactly with BigNat arithmetic. TLC model-checks the lane test on all lane states at a scaled hash length. Every Mine call (run in a child process so that a crash is an observation) on targets at, one ulp above/below 3^k/len, far below 1/len, mid-range, with 1..16 workers, is validated: TLC hashes the returned nonce, counts zeros, checks the logged Score is 3^z/len within one ulp and >= target exactly.",
    note="Trusted: TLC/SANY/CommunityModules, Go toolchain, BLAKE2b digest as a fact. Targets need at most 5 (thorough 8) zeros so that mining stays fast; data and targets are sampled.",
